@@ -144,9 +144,11 @@ def _cooperative_locks():
                 setattr(mod, attr, _coop_lock_factory)
             elif val is threading.RLock or getattr(val, "_verif_coop", None) == "RLock":
                 setattr(mod, attr, _coop_rlock_factory)
-            elif not isinstance(val, (type, types.ModuleType, types.FunctionType)) and hasattr(val, "__dict__") \
-                    and type(val).__module__.startswith("adaptix"):
-                for a2, v2 in list(vars(val).items()):
+            elif not isinstance(val, (type, types.ModuleType, types.FunctionType)) and type(val).__module__.startswith("adaptix"):
+                # attributes of module-level objects, whether kept in __dict__ or in __slots__
+                names = list(getattr(val, "__dict__", {})) + [n for c in type(val).__mro__ for n in getattr(c, "__slots__", ())]
+                for a2 in names:
+                    v2 = getattr(val, a2, None)
                     if isinstance(v2, (*_LOCK_TYPES, sched.CoopLock)):
                         setattr(val, a2, sched.CoopLock(reentrant=isinstance(v2, _LOCK_TYPES[1]) or getattr(v2, "reentrant", False)))
             elif isinstance(val, _LOCK_TYPES):
